@@ -587,6 +587,7 @@ type In struct {
 	Del      []int           // header/body fields to drop
 	TimeSkew time.Duration   // SendingTime offset
 	Garbage  string          // raw bytes instead of a message
+	NextExpS *int            // Logon: NextExpectedMsgSeqNum(789) = our next outbound number + *NextExpS
 }
 
 func ip(i int) *int { return &i }
@@ -632,6 +633,9 @@ func (w *World) Materialise(d *In) []byte {
 		}
 		if w.Cfg.BeginString == "FIXT.1.1" && !hasTag(body, 1137) {
 			body = append(body, fixscan.Field{1137, "9"})
+		}
+		if d.NextExpS != nil {
+			body = append(body, fixscan.Field{789, strconv.Itoa(w.S() + *d.NextExpS)})
 		}
 	case "D":
 		if !hasTag(body, 11) {
